@@ -71,8 +71,13 @@ void AttributedItem::dumpString(bool prependFieldSeparator, const string& str, o
     *output << FIELD_SEPARATOR;
   }
   string::size_type pos = str.find_first_of(TEXT_SEPARATOR);
-  if (str.find_first_of(FIELD_SEPARATOR) == string::npos
-  && (pos == string::npos || (pos > 0 && pos < str.length() - 1))) {
+  bool plain = str.find_first_of(FIELD_SEPARATOR) == string::npos;
+  for (string::size_type check = pos; plain && check != string::npos;
+       check = str.find_first_of(TEXT_SEPARATOR, check+1)) {
+    // a text separator can only be kept as is in the middle of the text and when not followed by another one
+    plain = check > 0 && check < str.length() - 1 && str[check+1] != TEXT_SEPARATOR;
+  }
+  if (plain) {
     *output << str;
   } else if (pos == string::npos) {
     *output << TEXT_SEPARATOR << str << TEXT_SEPARATOR;
